@@ -1340,6 +1340,17 @@ func (env *ExprEnv) call(e *ast.CallExpr) TV {
 			fail("heap access in pure context")
 		}
 		return TV{T: v.rd(env.heapNow(), arr, v.arrOf(x.T)), Ty: types.NewMap(types.Typ[types.Int], sl.Elem()), Sort: fmt.Sprintf("(Array %s %s)", v.idx(), v.sortOf(sl.Elem()))}
+	case "str":
+		// str(b): the string a []byte converts to now - a function of the slice header and of the
+		// contents of its backing array (same term as the code's string(b) conversion)
+		x := env.eval(e.Args[0])
+		if x.Sort != "Slice" {
+			fail("str of non-slice")
+		}
+		if env.heapNow() == nil {
+			fail("heap access in pure context")
+		}
+		return TV{T: v.bytesToStr(env.heapNow(), x), Ty: types.Typ[types.String], Sort: "Str"}
 	case "offset":
 		x := env.eval(e.Args[0])
 		if x.Sort != "Slice" {
